@@ -172,7 +172,7 @@ def run(ctx):
     # ---- 1. design level
     if not (os.environ.get('VERIF_SKIP_MC') or ctx.replay):
         ctx.mc('MC_SchedOps', mc_cfg(ctx, 'mcq', 2 if quick else 3, ('only_r', 'only_m')), timeout=2400, workers=8)
-        r = ctx.tlc('MC_SchedOps', mc_cfg(ctx, 'mcneg', 2, ('only_r', 'only_m'), guarded=False), workers=8, timeout=900)
+        r = ctx.tlc('MC_SchedOps', 'MC_SchedOps_unguarded', workers=8, timeout=900)
         if r.ok or not r.invariant_violated:
             raise MachineryError(f'negative control (no preconditions) not rejected by MC_SchedOps:\n{r.tail()}')
         ctx.cover['negative_control_rejected'] = r.invariant_violated
